@@ -39,17 +39,23 @@ class NodeRes:
         return vals
 
 
-def own_expansion(nd, upstream_lists=None):
-    """own splitter -> (list of {axis: idx} , axes list, {field: (axis, values)})"""
+def own_expansion(nd, res):
+    """own splitter -> (list of {axis: idx}, axes list, {field: (axis, values | ("node", U))})"""
     sp = nd.get("split")
     if not sp:
         return [{}], [], {}
-    vals = {}
+    vals, lens = {}, {}
     for f, r in sp["vals"].items():
-        if r[0] != "lit":
-            raise NotImplementedError("split over non-literal")
-        vals[f] = r[1]
-    lens = {f: len(v) for f, v in vals.items()}
+        if r[0] == "lit":
+            vals[f] = r[1]
+            lens[f] = len(r[1])
+        elif r[0] == "node":
+            # split over the list output of an upstream (uncombined, list-producing) node: every upstream
+            # job contributes the same number of elements
+            vals[f] = ("node", r[1])
+            lens[f] = res[r[1]].list_len
+        else:
+            raise NotImplementedError("split over workflow input")
     exp, shape, axes = R.expand(R.to_py(sp["form"]), lens)
     axid = {}
     ax_ids = []
@@ -62,41 +68,57 @@ def own_expansion(nd, upstream_lists=None):
     return out, ax_ids, {f: (axid[f], vals[f]) for f in vals}
 
 
-def evaluate(spec, wfin=None):
+def upstream_of(nd):
+    """upstream node names in the order pydra meets them: input fields a..e, split-over-output fields included"""
+    ups = []
+    ins = dict(nd.get("inputs", {}))
+    for f, r in ((nd.get("split") or {}).get("vals", {})).items():
+        if r[0] == "node":
+            ins[f] = r
+    for f in FIELD_ORDER:
+        r = ins.get(f)
+        if r and r[0] == "node" and r[1] not in ups:
+            ups.append(r[1])
+    return ups
+
+
+def evaluate(spec, wfin=None, jobs_out=None):
+    """jobs_out: optional list collecting (node name, term) of every job incl. nested workflows' jobs"""
     res = {}
     wfin = wfin or {}
     for nd in spec["nodes"]:
         name = nd["name"]
         tag = nd.get("tag", name)
-        cur, axes, seen = [{}], [], []
+        cur, axes = [{}], []
         inputs = nd.get("inputs", {})
-        for f in FIELD_ORDER:
-            r = inputs.get(f)
-            if r and r[0] == "node":
-                u = r[1]
-                if u in seen:
-                    continue
-                seen.append(u)
-                U = res[u]
-                if not U.axes:
-                    continue
-                new = []
-                for c in cur:
-                    for cu in U.coords:
-                        if all(c.get(k, v) == v for k, v in cu.items()):
-                            new.append({**c, **cu})
-                cur = new
-                for k in U.axes:
-                    if k not in axes:
-                        axes.append(k)
-        own, own_axes, fieldax = own_expansion(nd)
+        for u in upstream_of(nd):
+            U = res[u]
+            if not U.axes:
+                continue
+            new = []
+            for c in cur:
+                for cu in U.coords:
+                    if all(c.get(k, v) == v for k, v in cu.items()):
+                        new.append({**c, **cu})
+            cur = new
+            for k in U.axes:
+                if k not in axes:
+                    axes.append(k)
+        own, own_axes, fieldax = own_expansion(nd, res)
         cur = [{**c, **o} for c in cur for o in own]
         axes = axes + own_axes
         jobs = []
+        kind = nd.get("kind", "F")
         for c in cur:
             args = OrderedDict()
             for f in FIELD_ORDER:
-                if f in inputs:
+                if f in fieldax:
+                    ax, vals = fieldax[f]
+                    if isinstance(vals, tuple):
+                        args[f] = res[vals[1]].value(c)[c[ax]]
+                    else:
+                        args[f] = vals[c[ax]]
+                elif f in inputs:
                     k, v = inputs[f][0], inputs[f][1]
                     if k == "lit":
                         args[f] = v
@@ -104,26 +126,35 @@ def evaluate(spec, wfin=None):
                         args[f] = wfin[v]
                     else:
                         args[f] = res[v].value(c)
-                elif f in fieldax:
-                    ax, vals = fieldax[f]
-                    args[f] = vals[c[ax]]
-            if nd.get("kind", "F") == "L":
+            if kind == "L":
                 base = tag + "(" + ",".join(k + "=" + s(v) for k, v in args.items() if v is not None) + ")"
                 out = [f"{base}[{i}]" for i in range(nd.get("n", 2))]
                 term = base
+            elif kind == "W":
+                sub = evaluate(nd["sub"], wfin={k: v for k, v in args.items()}, jobs_out=jobs_out)
+                out = sub[nd["sub"]["out"][0]].final()
+                term = None
             else:
                 term = tag + "(" + ",".join(k + "=" + s(v) for k, v in args.items() if v is not None) + ")"
                 out = term
             jobs.append((c, term, out))
+            if jobs_out is not None and term is not None:
+                jobs_out.append((name, term))
         comb = nd.get("comb") or []
-        rem = [ax for ax in axes if not (ax[0] == name and any(f in comb for f in ax[1:]))
-               and not (".".join(map(str, ax[:2])) in comb)]
+
+        def combined_axis(ax):
+            if ax[0] == name and any(f in comb for f in ax[1:]):
+                return True
+            return any(cf.split(".")[0] == ax[0] and cf.split(".")[1] in ax[1:] for cf in comb if "." in cf)
+        rem = [ax for ax in axes if not combined_axis(ax)]
         groups = OrderedDict()
         for c, term, out in jobs:
             groups.setdefault(tuple((ax, c[ax]) for ax in rem), []).append(out)
         combined = len(rem) < len(axes)
         table = OrderedDict((k, (v if combined else v[0])) for k, v in groups.items())
-        res[name] = NodeRes(name, axes, [(c, t) for c, t, _ in jobs], rem, table, combined)
+        nr = NodeRes(name, axes, [(c, t) for c, t, _ in jobs if t is not None], rem, table, combined)
+        nr.list_len = nd.get("n", 2) if kind == "L" and not combined else None
+        res[name] = nr
     return res
 
 
@@ -131,11 +162,7 @@ def shared_origin_nodes(spec, res):
     """names of nodes that have >= 2 distinct upstream nodes whose remaining axes intersect"""
     bad = []
     for nd in spec["nodes"]:
-        ups = []
-        for f in FIELD_ORDER:
-            r = nd.get("inputs", {}).get(f)
-            if r and r[0] == "node" and r[1] not in ups:
-                ups.append(r[1])
+        ups = upstream_of(nd)
         hit = False
         for i, u in enumerate(ups):
             for v in ups[i + 1:]:
@@ -154,8 +181,7 @@ def descendants_or_self(spec, names):
         for nd in spec["nodes"]:
             if nd["name"] in out:
                 continue
-            for r in nd.get("inputs", {}).values():
-                if r[0] == "node" and r[1] in out:
-                    out.add(nd["name"])
-                    changed = True
+            if any(u in out for u in upstream_of(nd)):
+                out.add(nd["name"])
+                changed = True
     return out
